@@ -45,7 +45,7 @@ theorem norm_scaled (c : ℝ) (v : V3 ℝ) (hn : 0 < v.norm) :
   have h : (c * v.x / v.norm) ^ 2 + (c * v.y / v.norm) ^ 2 + (c * v.z / v.norm) ^ 2 = c ^ 2 := by
     have hsq := V3.norm_sq v
     field_simp
-    rw [hsq]; ring
+    rw [hsq]
   rw [h, Real.sqrt_sq_eq_abs]
 
 theorem Q.vec_norm_sq (q : Q ℝ) : q.vec.norm ^ 2 = q.x ^ 2 + q.y ^ 2 + q.z ^ 2 := V3.norm_sq _
@@ -107,7 +107,7 @@ theorem quatExp_normSq (r : V3 ℝ) : (quatExp r).normSq = 1 := by
     have : (Real.sin (r.norm / 2) * r.x / r.norm) ^ 2 + (Real.sin (r.norm / 2) * r.y / r.norm) ^ 2
         + (Real.sin (r.norm / 2) * r.z / r.norm) ^ 2 = Real.sin (r.norm / 2) ^ 2 := by
       field_simp
-      rw [← hsq]
+      rw [← hsq]; ring
     nlinarith [Real.sin_sq_add_cos_sq (r.norm / 2)]
   · rw [quatExp_cut r (not_lt.mp h)]; simp [Q.normSq]
 
@@ -233,7 +233,7 @@ theorem two_arcsin_cutoff_lt : 2 * Real.arcsin cutoff < 2.00000001e-4 := by
     ⟨by linarith [Real.pi_pos, show (0 : ℝ) < 1.000000005e-4 by norm_num],
      by linarith [Real.pi_gt_three, show (1.000000005e-4 : ℝ) < 1 by norm_num]⟩
   have hsin : cutoff < Real.sin 1.000000005e-4 := by
-    have h := Real.sin_gt_sub_cube (x := 1.000000005e-4) (by norm_num) (by norm_num)
+    have h := Real.sin_gt_sub_cube (x := 1.000000005e-4) (by norm_num)
     refine lt_trans ?_ h
     rw [cutoff_val]; norm_num
   have : Real.arcsin cutoff < 1.000000005e-4 := by
@@ -284,5 +284,39 @@ theorem quatExp_quatLog (q : Q ℝ) (hq : q.normSq = 1) (hw : 0 ≤ q.w) (h : cu
   have h2 : 2 * Real.arccos q.w / 2 = Real.arccos q.w := by ring
   rw [h2, Real.cos_arccos hw1 hw2, hsin]
   ext <;> simp only <;> field_simp
+
+/-! ### sum and difference -/
+
+/-- sum then difference: the unit base quaternion cancels exactly -/
+theorem quatDiff_quatSum (q : Q ℝ) (hq : q.normSq = 1) (r : V3 ℝ) :
+    quatDiff (quatSum q r) q = quatLog (quatExp r) := by
+  unfold quatDiff quatSum
+  rw [mul_assoc', mul_conj_self, hq, mul_one']
+
+/-- difference then sum: `exp(log(p q*)) ⊗ q` -/
+theorem quatSum_quatDiff (p q : Q ℝ) :
+    quatSum q (quatDiff p q) = (quatExp (quatLog (p.mul q.conj))).mul q := rfl
+
+theorem mul_conj_mul_cancel (p q : Q ℝ) (hq : q.normSq = 1) : (p.mul q.conj).mul q = p := by
+  rw [mul_assoc', conj_mul_self, hq, mul_one']
+
+/-! ### the witness of the cut-off sliver: `r = (2.000000001e-4, 0, 0)` -/
+
+def rSliver : V3 ℝ := ⟨2.000000001e-4, 0, 0⟩
+
+theorem rSliver_norm : rSliver.norm = 2.000000001e-4 := by
+  rw [V3.norm_def]
+  simp only [rSliver]
+  rw [show (2.000000001e-4 : ℝ) ^ 2 + 0 ^ 2 + 0 ^ 2 = (2.000000001e-4 : ℝ) ^ 2 by ring]
+  exact Real.sqrt_sq (by norm_num)
+
+theorem rSliver_sin : Real.sin (rSliver.norm / 2) ≤ cutoff := by
+  rw [rSliver_norm, cutoff_val]
+  have hb := Real.sin_bound (x := 2.000000001e-4 / 2) (by rw [abs_of_pos] <;> norm_num)
+  have h1 := (abs_le.mp hb).2
+  rw [abs_of_pos (by norm_num : (0 : ℝ) < 2.000000001e-4 / 2)] at h1
+  have h2 : (2.000000001e-4 / 2 : ℝ) - (2.000000001e-4 / 2) ^ 3 / 6 + (2.000000001e-4 / 2) ^ 5 / 100 ≤ 1 / 10000 := by
+    norm_num
+  linarith
 
 end BFL.Quat
